@@ -233,6 +233,22 @@ class Opaque:
 
 
 # ----------------------------------------------------------------------------------------------- kinds
+_ATOM_CODES = {}
+_ATOM_STRS = {}
+
+
+def atom_code(s):
+    if s not in _ATOM_CODES:
+        c = -(len(_ATOM_CODES) + 1)
+        _ATOM_CODES[s] = c
+        _ATOM_STRS[c] = s
+    return _ATOM_CODES[s]
+
+
+def atom_str(n):
+    return _ATOM_STRS.get(n, f'@atom{n}')
+
+
 def kind_of(v):
     if isinstance(v, Sym):
         return v.k
@@ -347,7 +363,12 @@ def py_eq_scalar(a, b):
     if ka == kb and ka in ('str', 'atom'):
         return mk(z3_of(a) == z3_of(b), 'bool')
     if {ka, kb} == {'str', 'atom'}:
-        raise Unsupported('comparison of an abstract atom with a concrete/symbolic string')
+        # a concrete string constant compared with an abstract identifier: the constant gets a reserved (negative) atom code,
+        # so the identifier MAY be that very string (models decode the code back to the constant)
+        at, st = (a, b) if ka == 'atom' else (b, a)
+        if is_sym(st):
+            raise Unsupported('comparison of an abstract atom with a symbolic string')
+        return mk(at.t == z3.IntVal(atom_code(st)), 'bool')
     return False
 
 
